@@ -252,7 +252,34 @@ def run(prog, chk):
     content_loop_progress(chk, pe, summ)
     # summary used above: parseText's result is exactly the bytes between its entry position and its final position
     st0 = [n for n in pt.nodes if n["k"] == "DeclStmt" and any(d["n"] == "start" and "init" in d and q.no_casts(pt.r(d["init"])) == "this->pos.pos" for d in n["decls"])]
-    att = [c for c in q.calls(pt) if pt.nodes[c].get("callee") == "String::attach" and [q.no_casts(pt.r(x)) for x in q.call_args(pt, c)] == ["start", "(this->pos.pos - start)"]]
+    def _is_cursor_at(c, x):
+        """does expression x equal the cursor this->pos.pos where call c is evaluated: the cursor itself, or the value of the one
+        store `pos.pos = x` that reaches c with neither side stored again in between"""
+        kx = q.no_casts(pt.r(x))
+        if kx == "this->pos.pos":
+            return True
+        cp = pt.node_pos(c)
+        all_st = [s_ for s_ in q.stores(pt) if q.no_casts(pt.r(s_.lhs)) in ("this->pos.pos", kx)]
+        for s_ in all_st:
+            if q.no_casts(pt.r(s_.lhs)) != "this->pos.pos" or s_.op != "=" or s_.rhs is None or q.no_casts(pt.r(s_.rhs)) != kx:
+                continue
+            sp = pt.node_pos(s_.node)
+            if sp is None or not pt.dominates_pos(sp, cp):
+                continue
+            if not any(o.node != s_.node and pt.node_pos(o.node) is not None and pt.find_path(sp, {pt.node_pos(o.node)}) is not None and
+                       pt.find_path(pt.node_pos(o.node), {cp}, avoid={sp}) is not None for o in all_st):
+                return True
+        return False
+
+    def _consumed_bytes(c):
+        a_ = q.call_args(pt, c)
+        if len(a_) != 2 or q.no_casts(pt.r(a_[0])) != "start":
+            return False
+        n_ = pt.nodes[pt.strip(a_[1])]
+        while n_["k"] == "ParenExpr":
+            n_ = pt.nodes[pt.strip(n_["c"][0])]
+        return n_["k"] == "BinaryOperator" and n_.get("op") == "-" and q.no_casts(pt.r(n_["c"][1])) == "start" and _is_cursor_at(c, n_["c"][0])
+    att = [c for c in q.calls(pt) if pt.nodes[c].get("callee") == "String::attach" and _consumed_bytes(c)]
     asg = [s for s in q.stores(pt) if q.no_casts(pt.r(s.lhs)) == "text" and "unescapeString" in pt.r(s.rhs)]
     if st0 and att and asg and not [s for s in q.stores(pt) if q.no_casts(pt.r(s.lhs)) == "start"]:
         chk.ok("C16.b", pt, "parseText: text = unescape(bytes[start, pos)), start = entry position (non-empty text => input consumed)", "%s:%s" % (pt.file, pt.line), "shape of the result construction", evals=3)
